@@ -25,9 +25,17 @@ PROP = "C07"
 MAX_OUTER = 2       # unwinding bound: the environment drops every feature at the latest after this many outer steps
 
 
+STEP_LIMIT = 200     # concrete replays; symbolic runs use (MAX_OUTER + 3) * max_iter * n_batches
+
+
+class NonTermination(RuntimeError):
+    pass
+
+
 class Env:
     def __init__(self, family, d, n_batches, max_iter, max_patience, dynamic, nan_allowed, sym_args, concrete=None):
         self.family, self.d, self.n_batches = family, d, n_batches
+        self.max_iter = max_iter
         self.version = 0
         self.updates = 0
         self.scores, self.nfs, self.pens = {}, {}, {}
@@ -94,6 +102,10 @@ def make_estimator(env, mods, family, alpha, dynamic, max_iter, batch_size_none=
     def update(weights, grads):
         env.version += 1
         env.updates += 1
+        if env.version > (STEP_LIMIT if env.concrete is not None else (MAX_OUTER + 3) * env.max_iter * env.n_batches):
+            # the environment drops every feature after MAX_OUTER outer steps, so a terminating path makes at most
+            # (MAX_OUTER + 1) * max_iter * n_batches (<= 4 * 2 * 2) updates: beyond that the loop does not stop
+            raise NonTermination("weight updates continue although no feature is left: the path does not terminate")
         for w in weights:
             w[...] = float(env.version)          # in place, like the optimiser + proximal step
     est._update_weights = update
@@ -196,6 +208,10 @@ def job(family, d, n_batches, max_iter, max_patience, dynamic, restore, nan_allo
         if isinstance(out, PathError):
             res["obligations"].append({"name": tag + "/path() raised", "verdict": "sat", "how": repr(out)[:300]})
             _viol(res, seen, f"{PROP}:raises:{type(out.exc).__name__}", f"path() raises {type(out.exc).__name__}", box, tagbase, family, d, n_batches, max_iter, max_patience, dynamic, restore, y_given)
+            if isinstance(out.exc, NonTermination):
+                # every continuation of a non-terminating loop forks again: stop here, the rest of this job is not explored
+                res["obligations"].append({"name": tagbase + "/exploration", "verdict": "unknown", "how": "stopped after a non-terminating path"})
+                break
             continue
         (best_w, geminis, pens, alphas, nfeat), warns = out
         checks = contract(env, est, args, box["alpha"], best_w, geminis, pens, alphas, nfeat, warns, d, dynamic, restore, family, n_batches, y_given)
@@ -226,6 +242,8 @@ def contract(env, est, args, alpha0, best_w, geminis, pens, alphas, nfeat, warns
     out = []
     T = len(alphas)
     out.append(("four histories of equal length", len(geminis) == T and len(pens) == T and len(nfeat) == T, f"{PROP}:history-length", "the four histories have different lengths"))
+    if not out[-1][1]:
+        return out      # the remaining clauses index the histories step by step
     # sanitised arguments + warnings
     m, keep, minf = args["alpha_multiplier"], args["keep_threshold"], args["min_features"]
     bad_m = bool(to_rat(m) <= 1)
@@ -376,6 +394,8 @@ def contract_float(env, est, args, alpha0, best_w, geminis, pens, alphas, nfeat,
     out = []
     T = len(alphas)
     out.append(("lengths", len(geminis) == T and len(pens) == T and len(nfeat) == T, f"{PROP}:history-length", ""))
+    if not out[-1][1]:
+        return out
     m, keep, minf = args["alpha_multiplier"], args["keep_threshold"], args["min_features"]
     bad_m, bad_k, bad_f = m <= 1, (keep < 0 or keep > 1), minf <= 0
     m_eff, keep_eff, minf_eff = (1.05 if bad_m else m), (0.9 if bad_k else keep), (2 if bad_f else minf)
